@@ -20,13 +20,19 @@ Inductive op :=
 | ORelease (k : N)             (* the parked accept of connection k goes on to Clients::register *)
 | OConnect (id : N)            (* connect without pausing: admission and registration *)
 | ODisc (id : N) (o : option N)  (* embedder: Clients::disconnect(id, Some(conn id of k) | None) *)
-| OProbe (k : N).              (* is k served? (ping answered and a datagram from it forwarded) *)
+| OProbe (k : N)               (* is k served? (ping answered and a datagram from it forwarded) *)
+| OFlood (k : N).              (* traffic is made to pile up for k's endpoint: other clients keep the send
+                                  queue of its active connection filled while its clients read slowly, so
+                                  the connection's actor is busy writing, with a non-empty queue every time
+                                  it re-enters its select — until the next disconnect request has been served *)
 
 (* phase: 0 admitted, accept parked before register; 1 registered, actor running;
           2 gone (actor cancelled: biased select leaves the loop, unregisters, stream closed).
    revoked: ghost — a disconnect request naming this connection (by its connection id, or by
-   its endpoint id) was issued after its admission. *)
-Record conn := mkC { num : N; cid : N; phase : N; revoked : bool }.
+   its endpoint id) was issued after its admission.
+   busy: ghost — traffic is piled up for its endpoint (OFlood): when a disconnect request comes,
+   the connection's send queue is non-empty and its actor is in the middle of a write. *)
+Record conn := mkC { num : N; cid : N; phase : N; revoked : bool; busy : bool }.
 Definition state := list conn.
 
 Definition matches (c : conn) (id : N) (o : option N) : bool :=
@@ -34,23 +40,32 @@ Definition matches (c : conn) (id : N) (o : option N) : bool :=
 
 Definition exec (s : state) (o : op) : state * N :=
   match o with
-  | OAdmit id => (s ++ [mkC (len s) id 0 false], 1)
-  | OConnect id => (s ++ [mkC (len s) id 1 false], 1)
+  | OAdmit id => (s ++ [mkC (len s) id 0 false false], 1)
+  | OConnect id => (s ++ [mkC (len s) id 1 false false], 1)
   | ORelease k =>
       if existsb (fun c => (num c =? k) && (phase c =? 0)) s
       then (map (fun c => if (num c =? k) && (phase c =? 0)
-                          then mkC (num c) (cid c) 1 (revoked c) else c) s, 1)
+                          then mkC (num c) (cid c) 1 (revoked c) (busy c) else c) s, 1)
       else (s, 0)
   | ODisc id o =>
       if match o with Some k => k <? len s | None => true end then
         (* disconnect finds only registered connections (entry in the map); the ones it
-           finds are cancelled and go away; it returns whether it found one *)
+           finds are cancelled and go away — BUSY OR NOT: the actor's select is biased and polls
+           the shutdown token first, whatever is queued (client.rs:382-390), so the connection
+           leaves its loop at the next iteration, i.e. after at most the write in flight; it
+           returns whether it found one.  (The piled-up traffic is stopped after the request.) *)
         (map (fun c => if matches c id o
-                       then mkC (num c) (cid c) (if phase c =? 1 then 2 else phase c) true
-                       else c) s,
+                       then mkC (num c) (cid c) (if phase c =? 1 then 2 else phase c) true false
+                       else mkC (num c) (cid c) (phase c) (revoked c) false) s,
          if existsb (fun c => matches c id o && (phase c =? 1)) s then 2 else 1)
       else (s, 0)
   | OProbe k => (s, if existsb (fun c => (num c =? k) && (phase c =? 1)) s then 1 else 0)
+  | OFlood k =>
+      match find (fun c => (num c =? k) && (phase c =? 1)) s with
+      | Some t => (map (fun c => if (cid c =? cid t) && (phase c =? 1)
+                                 then mkC (num c) (cid c) (phase c) (revoked c) true else c) s, 1)
+      | None => (s, 0)
+      end
   end.
 
 Fixpoint go (s : state) (l : list op) : list (state * N) :=
@@ -127,7 +142,17 @@ Fixpoint known_from (s : state) (l : list op) : bool :=
 Definition known (i : input) : N := if known_from [] i then 1 else 0.
 
 (* Branch tag: 0 no disconnect request; 1 requests only for registered / absent connections;
-   2 a request while some accept is parked (any endpoint); 3 the known class. *)
+   2 a request while some accept is parked (any endpoint); 3 the known class;
+   4 a request naming a registered connection that is busy (traffic piled up for it). *)
+Fixpoint busy_disc (s : state) (l : list op) : bool :=
+  match l with
+  | [] => false
+  | o :: l' =>
+      (match o with
+       | ODisc id oc => existsb (fun c => matches c id oc && (phase c =? 1) && busy c) s
+       | _ => false
+       end) || busy_disc (fst (exec s o)) l'
+  end.
 Fixpoint parked_disc (s : state) (l : list op) : bool :=
   match l with
   | [] => false
@@ -137,6 +162,7 @@ Fixpoint parked_disc (s : state) (l : list op) : bool :=
   end.
 Definition tag (i : input) : N :=
   if known_from [] i then 3
+  else if busy_disc [] i then 4
   else if parked_disc [] i then 2
   else if existsb (fun o => match o with ODisc _ _ => true | _ => false end) i then 1 else 0.
 
